@@ -10,6 +10,7 @@ import Driver.OpsGen
 import Driver.OpsGenXml
 import Driver.OpsFile
 import Driver.OpsCapi
+import Driver.OpsHevc
 /-! `dovi_model`: the executable model behind the line protocol (one case per line in, one result per line out). -/
 open Driver
 
@@ -20,6 +21,7 @@ def step (line : String) : String :=
     if ["esc", "unesc", "hesc", "hunesc", "escdigest"].contains op then C13.run parts
     else if op.startsWith "av1." || op == "c08.av1" || (op == "c08.capi" && parts.getD 1 "" == "av1") then Av1Ops.run parts
     else if op.startsWith "pq." then PqOps.run parts
+    else if op.startsWith "hevc." || op.startsWith "sei." then HevcOps.run parts
     else if op.startsWith "file." then FileOps.run parts
     else if op == "gen" then GenOps.run parts
     else if op == "genxml" || op == "xmlenc" then GenXmlOps.run parts
